@@ -103,6 +103,10 @@ func c20Handlers() []c20Handler {
 		{"GET-metadata", plain("GET", "/metadata", "", false)},
 		{"SSO-from-X-whose-metadata-validity-has-passed", form("/sso", sso("https://sp-x.example.com/metadata"), true)},
 		{"SSO-from-an-unregistered-SP", form("/sso", sso("https://unknown.example.com/saml2/metadata"), true)},
+		// requests that end in the login form (no session, or wrong credentials): they all render the same template
+		{"SSO-from-A-without-session", form("/sso", sso(c19EntA), false)},
+		{"LOGIN-with-a-wrong-password", form("/login", url.Values{"user": {"alice"}, "password": {"nope"}}, false)},
+		{"GET-login-page", plain("GET", "/login", "", false)},
 	}
 }
 
